@@ -84,6 +84,19 @@ def selection(ctx: Ctx, h: Harness):
         ctx.decide(bad is None, "R8.sel", site, "", bad or "", where=where(fi, fi.node))
     except Unsupported as e:
         ctx.unknown("R8.sel", site, str(e))
+    # a calibrated result of exactly 0.0 is a calibrated result (a float), from the default and from a matching context calibrator
+    for where_, src in (("default", f"IntegerDataEncoding(8, 'unsigned', default_calibrator={_poly(-37.0)}).parse_value(pkt)"),
+                        ("matching context", f"IntegerDataEncoding(8, 'unsigned', default_calibrator={_poly(500.0)}, context_calibrators=["
+                                             f"calibrators.ContextCalibrator([comparisons.Comparison('1', 'M0')], {_poly(-37.0)})]).parse_value(pkt)")):
+        site = f"{fi.key}::{where_} calibrator yields exactly 0.0"
+        try:
+            kind, got = h.outcome(src, ENC, pkt=h.packet(bytes([raw]), {"M0": h.val("Int", 1)}))
+            ok = kind == "ok" and getattr(got, "cls", None) == "FloatParameter" and isinstance(got, float) and got == 0.0 and got.attrs.get("raw_value") == raw
+            ctx.decide(ok, "R8.sel", site, "FloatParameter 0.0", f"raw {raw} calibrated by x - 37 ({where_} calibrator): "
+                       f"{'raises ' + str(got) if kind != 'ok' else repr(got) + ' (' + str(getattr(got, 'cls', type(got).__name__)) + ')'}; XTCE gives the float 0.0 with raw_value {raw}",
+                       where=where(fi, fi.node))
+        except Unsupported as e:
+            ctx.unknown("R8.sel", site, str(e))
     # a calibrator that applies but cannot calibrate the value fails the parse: no silent fall-through to the default / raw value
     for where_, src in (
             ("matching context", f"IntegerDataEncoding(8, 'unsigned', default_calibrator={_poly(500.0)}, context_calibrators=[calibrators.ContextCalibrator("
@@ -117,7 +130,7 @@ def selection(ctx: Ctx, h: Harness):
         ctx.unknown("R8.sel", site, str(e))
 
 
-def enum_bool(ctx: Ctx, h: Harness):
+def enum_bool(ctx: Ctx, h: Harness, RULE: str = "R8.enum"):
     fe = ctx.prog.func(f"{PT}::EnumeratedParameterType.parse_value")
     site = f"{fe.key}::label-from-raw"
     try:
@@ -141,9 +154,27 @@ def enum_bool(ctx: Ctx, h: Harness):
                             and got.attrs.get("raw_value") == rv and not isinstance(got.attrs.get("raw_value"), float)):
                         bad = (f"raw {rv} (calibrator attached: {cal != 'None'}): label {got!r} raw_value "
                                f"{getattr(got, 'attrs', {}).get('raw_value')!r}; expected {want!r} with raw_value {rv}")
-        ctx.decide(bad is None, "R8.enum", site, "", bad or "", where=where(fe, fe.node))
+        ctx.decide(bad is None, RULE, site, "", bad or "", where=where(fe, fe.node))
     except Unsupported as e:
-        ctx.unknown("R8.enum", site, str(e))
+        ctx.unknown(RULE, site, str(e))
+    # the raw value of an enumerated item is the value READ FROM THE PACKET, not the key it matched (keys that compare equal but are
+    # distinguishable: -0.0 matches 0.0, 1 matches True)
+    site = f"{fe.key}::raw value is the encoded value, not the matched key"
+    try:
+        bad = None
+        k, got = h.outcome("EnumeratedParameterType('E', encodings.FloatDataEncoding(32), {0.0: 'OFF', 1.0: 'ON'}).parse_value(pkt)", PT,
+                           pkt=h.packet(bytes.fromhex("80000000"), {}))
+        rv = getattr(got, "attrs", {}).get("raw_value") if k == "ok" else None
+        if not (k == "ok" and got == "OFF" and isinstance(rv, float) and repr(float(rv)) == "-0.0"):
+            bad = f"float-encoded enumeration, field 0x80000000 (-0.0): {k} {got!r} raw_value {rv!r}; expected 'OFF' with raw_value -0.0 (the bits of the packet)"
+        k, got = h.outcome("EnumeratedParameterType('E', encodings.IntegerDataEncoding(8, 'unsigned'), {False: 'NO', True: 'YES'}).parse_value(pkt)", PT,
+                           pkt=h.packet(bytes([1]), {}))
+        rv = getattr(got, "attrs", {}).get("raw_value") if k == "ok" else None
+        if not bad and not (k == "ok" and got == "YES" and isinstance(rv, int) and not isinstance(rv, bool) and rv == 1):
+            bad = f"integer-encoded enumeration keyed True/False, field 1: {k} {got!r} raw_value {rv!r}; expected 'YES' with the integer 1 as raw_value"
+        ctx.decide(bad is None, RULE, site, "", bad or "", where=where(fe, fe.node))
+    except Unsupported as e:
+        ctx.unknown(RULE, site, str(e))
     # an enumeration as declared in a document: every listed value - negative, zero, and integers a double cannot hold - maps
     site = f"{PT}::EnumeratedParameterType.from_xml::declared values"
     try:
@@ -186,9 +217,9 @@ def enum_bool(ctx: Ctx, h: Harness):
                         break
                 if bad:
                     break
-        ctx.decide(bad is None, "R8.enum", site, "", bad or "", where=where(fe, fe.node))
+        ctx.decide(bad is None, RULE, site, "", bad or "", where=where(fe, fe.node))
     except (Unsupported, Raised) as e:
-        ctx.unknown("R8.enum", site, str(e))
+        ctx.unknown(RULE, site, str(e))
     fb = ctx.prog.func(f"{PT}::BooleanParameterType.parse_value")
     site = f"{fb.key}::truthiness-of-raw"
     try:
@@ -203,9 +234,9 @@ def enum_bool(ctx: Ctx, h: Harness):
                         and got.attrs.get("raw_value") == rv and not isinstance(got.attrs.get("raw_value"), float)):
                     bad = (f"raw {rv} (calibrator attached: {c != 'None'}): boolean {got!r} raw_value "
                            f"{getattr(got, 'attrs', {}).get('raw_value')!r}; expected {bool(rv)} with raw_value {rv}")
-        ctx.decide(bad is None, "R8.enum", site, "", bad or "", where=where(fb, fb.node))
+        ctx.decide(bad is None, RULE, site, "", bad or "", where=where(fb, fb.node))
     except Unsupported as e:
-        ctx.unknown("R8.enum", site, str(e))
+        ctx.unknown(RULE, site, str(e))
 
 
 def polynomial(ctx: Ctx, h: Harness):
